@@ -83,6 +83,9 @@ def run(ctx):
             flow = C.flow_of(f)
             defs = C.assigns_to(loop, U(wv[0])) if isinstance(wv[0], ast.Name) else []
             vals = {}
+            if isinstance(wv[0], ast.IfExp) and "has_node" in U(wv[0].test):
+                vals[True] = (U(wv[0].test), U(wv[0].body))
+                vals[False] = (U(wv[0].test), U(wv[0].orelse))
             for d in defs:
                 facts = [(U(e), p) for e, p in C.facts_at(d, stop=loop)]
                 cond = [(t, p) for t, p in facts if "has_node" in t]
